@@ -141,21 +141,16 @@ Theorem C14_filter_is_per_record_refuted_for_pinned_variant :
 Proof. exact filter_sticky_variant_drops_later_records. Qed.
 Print Assumptions C14_filter_is_per_record_refuted_for_pinned_variant.
 
-(* ---- type declarations and indexed assignment *)
-Theorem C14_type_gate_enforced_indexed :
+(* ---- type declarations and indexed assignment.  PARTIAL: indexed assignment that would turn a scalar-valued local into a
+   collection is outside the modelled fragment (the pinned tree overwrites the shared Mlrval in place, findings F2/F3/F5), so
+   this only covers locals currently holding a map *)
+Theorem C14_type_gate_enforced_indexed_partial :
   forall vr x vs v st fs r cur t st',
     v_idx_gate vr = true -> stk st = fs :: r -> fs_get x fs = Some cur -> cur <> VAbsent -> fs_type x fs = Some t ->
     assign_local_indexed vr x vs v st = Ok (RO ONormal, st') ->
     exists m, put_indexed_value cur vs v = POk m /\ gate t (VMap m) = true.
 Proof. exact indexed_assignment_gated. Qed.
-Print Assumptions C14_type_gate_enforced_indexed.
-
-Theorem C14_type_gate_enforced_indexed_refuted_for_pinned_variant :
-  run_prog documented idx_gate_witness false 50 [] = Fatal
-  /\ run_prog {| v_filter_per_record := true; v_idx_gate := false |} idx_gate_witness false 50 []
-     = Ok [ORec [(B "r", VMap [(B "a", VInt 1)])]].
-Proof. exact indexed_assignment_gate_variants. Qed.
-Print Assumptions C14_type_gate_enforced_indexed_refuted_for_pinned_variant.
+Print Assumptions C14_type_gate_enforced_indexed_partial.
 
 (* ---- emit @name, "a", "b" splits a two-level map exactly into the records of the two-level grouping *)
 Theorem C14_emit_by_names_splits_like_grouping :
